@@ -31,6 +31,15 @@ def judge(m, cases, impl_out):
     return [(w, it[1]) for w, it, a in zip(where, items, acc) if not a], len(items)
 
 
+def sweep_failures(m, cases, io, mo):
+    out = []
+    bad, _ = judge(m, cases, io)
+    for (ci, oi), word in bad:
+        pred = all(proj(cases[ci]['ops'][k], io[ci][k]) == proj(cases[ci]['ops'][k], mo[ci][k]) for k in range(oi + 1))
+        out.append((ci, oi, 'passes with %s' % word, pred))
+    return out
+
+
 def run(rep):
     res = C.proof_obligations(rep, 'Properties/C01.v')
     quick = rep.tier == 'quick'
